@@ -617,8 +617,9 @@ class WSGIApp:
     def _resolve_reference(self, reference: model.ModelReference[model.base._RT]) -> model.base._RT:
         try:
             return reference.resolve(self.object_store)
-        except (KeyError, TypeError, model.UnexpectedTypeError) as e:
-            # the referenced object isn't (or isn't of the expected type) in this repository: that's the client's concern
+        except (KeyError, TypeError, ValueError, model.UnexpectedTypeError) as e:
+            # the referenced object isn't (or isn't of the expected type) in this repository, or the reference runs through a
+            # list under a key that is no index: that's the client's concern
             raise NotFound(str(e)) from e
 
     @classmethod
